@@ -27,9 +27,34 @@ const (
 var frameMemo = map[string]map[string]int{}
 var frameInProgress = map[string]bool{}
 
+// A handed reference with the heap arrays it can index: a pointer to a struct T indexes the field
+// heaps H$T.*, a pointer to anything else its box B$T, a slice's backing array the element heaps
+// E$elem*, a map its M$key$elem$* arrays; an interface payload may index anything.
+type handedRef struct {
+	t      *Term
+	prefix string // "" = any heap
+}
+
+func heapHasPrefix(h, p string) bool {
+	if p == "" {
+		return true
+	}
+	if !strings.HasPrefix(h, p) {
+		return false
+	}
+	if len(h) == len(p) {
+		return true
+	}
+	switch h[len(p)] {
+	case '.', '$', '[', '#':
+		return true
+	}
+	return strings.HasSuffix(p, ".") || strings.HasSuffix(p, "$")
+}
+
 // handedRefs: the references through which a callee may legitimately write (see above).
-func handedRefs(vals []Val) []*Term {
-	var out []*Term
+func handedRefs(vals []Val) []handedRef {
+	var out []handedRef
 	for _, v := range vals {
 		cs := flatten(v.T)
 		if len(cs) != len(v.C) {
@@ -37,12 +62,31 @@ func handedRefs(vals []Val) []*Term {
 		}
 		for i, c := range cs {
 			switch c.Kind {
-			case CRef, CArrID, CMap:
-				out = append(out, v.C[i])
+			case CRef:
+				pfx := ""
+				if pt, ok := c.T.Underlying().(*types.Pointer); ok {
+					if _, isStruct := pt.Elem().Underlying().(*types.Struct); isStruct && !isOpaqueStruct(pt.Elem()) {
+						pfx = "H$" + structKey(pt.Elem()) + "."
+					} else {
+						pfx = "B$" + typeKey(pt.Elem())
+					}
+				}
+				out = append(out, handedRef{v.C[i], pfx})
+			case CArrID:
+				pfx := ""
+				if sl, ok := c.T.Underlying().(*types.Slice); ok {
+					pfx = "E$" + typeKey(sl.Elem())
+				}
+				out = append(out, handedRef{v.C[i], pfx})
+			case CMap:
+				pfx := ""
+				if _, ok := c.T.Underlying().(*types.Map); ok {
+					pfx = mapHeapBase(c.T) + "$"
+				}
+				out = append(out, handedRef{v.C[i], pfx})
+			case CIfVal:
+				out = append(out, handedRef{v.C[i], ""})
 			}
-		}
-		if isIface(v.T) && len(v.C) == 2 {
-			out = append(out, v.C[1])
 		}
 	}
 	return out
@@ -50,7 +94,7 @@ func handedRefs(vals []Val) []*Term {
 
 // handedRefsDeep: handedRefs plus one level below pointer parameters: the references, backing
 // arrays and maps held in the fields of the structs they point to, read in state st.
-func handedRefsDeep(st *State, vals []Val) []*Term {
+func handedRefsDeep(st *State, vals []Val) []handedRef {
 	out := handedRefs(vals)
 	for _, v := range vals {
 		pt, ok := v.T.Underlying().(*types.Pointer)
@@ -62,6 +106,19 @@ func handedRefsDeep(st *State, vals []Val) []*Term {
 		}
 		sv := st.loadStruct(v.C[0], pt.Elem())
 		out = append(out, handedRefs([]Val{sv})...)
+	}
+	return out
+}
+
+// exclusionsFor: the handed references that can index heap h.
+func exclusionsFor(h string, refs []handedRef) []*Term {
+	var out []*Term
+	seen := map[int]bool{}
+	for _, r := range refs {
+		if heapHasPrefix(h, r.prefix) && !seen[r.t.id] {
+			seen[r.t.id] = true
+			out = append(out, r.t)
+		}
 	}
 	return out
 }
@@ -160,7 +217,7 @@ func (ex *Exec) inferredFrames(fi *FuncInfo) map[string]int {
 			q := BVar("r", SInt)
 			cond := []*Term{Lt(q, ctr0)}
 			if mode == frameParams {
-				for _, p := range handed {
+				for _, p := range exclusionsFor(h, handed) {
 					cond = append(cond, Neq(q, p))
 				}
 			}
@@ -313,7 +370,7 @@ func (ex *Exec) assumeInferredFrames(st *State, pre *State, fi *FuncInfo, ms *Mo
 		r := BVar("r", SInt)
 		cond := []*Term{Lt(r, ctrBefore)}
 		if k == frameParams {
-			for _, p := range refs {
+			for _, p := range exclusionsFor(h, refs) {
 				cond = append(cond, Neq(r, p))
 			}
 		}
